@@ -222,6 +222,9 @@ class RandGen:
         for q in ps:
             self.declare(q, NUM, assignable=True)
         body = []
+        if r.random() < 0.25:
+            # a statement that STARTS with '(' (first in its block: no separator needed)
+            body.append(p.callstat(p.call(p.paren(p.id("emit")), [p.str("paren-call")])))
         for _ in range(r.randint(0, 3)):
             body.extend(self.stmt(1, infunc=True))
         nret = r.choice([0, 1, 1, 1, 2, 3])
@@ -357,8 +360,15 @@ class RandGen:
                         v.meta += 1
                     return [st]
             return [self.emit_vars()]
-        if c < 0.56:     # emit
+        if c < 0.53:     # emit
             return [p.emit([self.any_expr(2) for _ in range(r.randint(1, 3))])]
+        if c < 0.56:     # statements starting with a parenthesised prefix expression
+            k = r.random()
+            if k < 0.4:
+                return [p.callstat(p.call(p.paren(p.id("emit")), [self.any_expr(1)]))]
+            if k < 0.7:
+                return [p.callstat(p.method(p.paren(p.table([("k", p.add("str", s=[109], name=True), p.func(["self", "a"], p.block([p.emit([p.str("m"), p.id("a")])])))])), "m", [self.any_expr(1)]))]
+            return [p.assign([p.field(p.paren(p.id("_G")), self.fresh("gp"))], [self.expr(NUM, 1)])]
         if d <= 0:
             return [self.emit_vars()]
         if c < 0.66:     # if
